@@ -9,9 +9,14 @@ def _conds(tier):
     conds = []
 
     def c(L, fix, inner=0, timeout=600):
-        env = {"VF_L": L, "VF_FIXCMD": fix, "VF_INNER": inner}
-        conds.append(Cond(f"cmds/L={L}/prefix={fix or '-'}{'/handler-issued-command' if inner else ''}",
-                          "c04", "h_cmds", env, timeout))
+        # a bounded run as second command is split by the range of its bound
+        ranges = [(0, 6)]
+        if len(fix) >= 2 and fix[1] in "45":
+            ranges = [(0, 2), (3, 4), (5, 6)]
+        for lo, hi in ranges:
+            env = {"VF_L": L, "VF_FIXCMD": fix, "VF_INNER": inner, "VF_ARGLO": lo, "VF_ARGHI": hi}
+            conds.append(Cond(f"cmds/L={L}/prefix={fix or '-'}{'/handler-issued-command' if inner else ''}"
+                              + (f"/bound={lo}..{hi}" if len(ranges) > 1 else ""), "c04", "h_cmds", env, timeout))
 
     if tier == "quick":
         c(2, "")
